@@ -175,6 +175,18 @@ func FindInsertionPoints(
 					newBranchSet[i] = append(newBranchSet[i], c...)
 				}
 
+				// an entry without an id has nothing to be completed with (a member of a union or
+				// interface list that the step is not about): the other entries keep their points
+				if pointI == len(targetPoints)-1 && len(newBranchSet) > 0 {
+					id, err := extractID(resultEntry)
+					if err != nil {
+						return nil, err
+					}
+					if id == nil {
+						continue
+					}
+				}
+
 				// if we are adding to an existing branch
 				if len(newBranchSet) > 0 {
 					// add the path to the end of this for the entry we just added
